@@ -524,7 +524,16 @@ func (h *memoHarness) runSequential(t *testing.T, c *MemoCase) *Outcome {
 				// the caller cancelled after j elements: the read may fail (having delivered a prefix) or complete - the
 				// wrapped store, which ignores the context, completes. What it may not do is report success for a part.
 				o.stat("fault_caller_gives_up_after_j_elements", 1)
-				if len(got.Keys) > len(want.Keys) || !equalStrings(got.Keys, want.Keys[:len(got.Keys)]) {
+				if lastWriter >= 0 && lastWriter != op.H {
+					// this handle's memo may be older than the last write (the open finding "per-handle caches"): what the
+					// complete answer of this read is cannot be told from the wrapped store
+					o.stat("given_up_reads_not_judged_other_handle_wrote_last", 1)
+					afterFault = true
+					continue
+				}
+				// (a part of the answer, not a positional prefix: the order of an unpaged answer is the driver's business and
+				// two calls need not agree on it)
+				if !subMultiset(got.Keys, want.Keys) {
 					return violation("C19:wrong-data-on-cancelled-read", "op %d %s: delivered %q, the wrapped store holds %q\nhistory: %s", i, op.desc(c), got.Keys, want.Keys, h.renderSeq(c, i))
 				}
 				if got.Err == nil && len(got.Keys) != len(want.Keys) {
